@@ -9,6 +9,7 @@ CLAIMED = {
  'C03': ('panic-freedom of blocks -> graph -> tree -> projection: every reachable panic edge of the real MIR within the bounds is reported', '3 C03'),
  'C04': ('incremental == fresh at Graph level: after every update_key step of every history within the bounds, all observations equal those of a from-scratch import of the current documents (parser stubbed)', '3 C04'),
  'C05': ('backlink index == independent scan of the documents, for block and inline links, on fresh and incrementally updated graphs', '3 C05'),
+ 'C06': ('title-refresh decision kernel: kind kept, destination kept, title of the note the link resolves to, for every link kind / position / url form / directory pair in the table', '3 C06'),
  'C07': ('outline laws with symbolic heading levels: order kept, emitted outline well nested, well-nested input keeps identical levels, '
          'blocks stay under the nearest preceding heading / same list item / quote', '3 C07'),
  'C13': ('offset -> line/column kernels: to_line_range / to_inline_range for every sorted line table and byte range (symbolic 64-bit), line_starts for every line structure with LF / CRLF terminators and symbolic line lengths', '3 C13'),
